@@ -84,8 +84,16 @@ func (x *Exec) ifaceApply(st *State, ifaceT types.Type, method *types.Func, recv
 func (x *Exec) ifaceCall(fr *Frame, st *State, ic *FuncContract, c *ssa.CallCommon, recv Value, args []Value, pos token.Pos, resT types.Type) Value {
 	if !ic.Pure {
 		// declared but not pure: frame from the contract, results unconstrained except ensures
-		x.note("interface method " + c.Method.FullName() + " is not pure: havocked")
-		return x.havocCall(fr, st, "interface method "+c.Method.FullName(), resT, true)
+		// a contract with a frame: preconditions checked, declared frame havocked, ensures assumed
+		sig := c.Method.Type().(*types.Signature)
+		names := []string{"self"}
+		ptypes := []types.Type{c.Value.Type()}
+		for i := 0; i < sig.Params().Len(); i++ {
+			names = append(names, sig.Params().At(i).Name())
+			ptypes = append(ptypes, sig.Params().At(i).Type())
+		}
+		x.note("interface method " + c.Method.FullName() + ": assumed contract (any implementation is assumed to satisfy it)")
+		return x.contractCallSig(fr, st, c.Method.Name(), names, ptypes, sig, nil, ic, x.vc.uni.pkgOfNamed(c.Value.Type()), append([]Value{recv}, args...), pos, resT)
 	}
 	res := x.ifaceApply(st, c.Value.Type(), c.Method, recv.X, args)
 	if len(ic.Ensures) > 0 {
